@@ -54,8 +54,10 @@ Flush(id) ==
       Props1(p) == IF Cardinality(DOMAIN W) > 1 /\ p \cap {"C01", "C02", "C03", "C08", "C09", "C11"} # {} THEN p \cup {"C14"} ELSE p
       \* ... and with a recursive watch, C19 (true paths, exactly its own tree)
       Props2(w, p) == IF W[w].recursive /\ p \cap {"C01", "C02", "C03", "C08", "C09"} # {} THEN p \cup {"C19"} ELSE p
+      \* ... and in the families that add with explicit operation sets, C15 (what was asked for is observable, nothing else is reported)
+      Props3(p) == IF g.fam \in {"withops", "reops"} /\ p \cap {"C01", "C02"} # {} THEN p \cup {"C15"} ELSE p
       perW == [k \in 1..Len(ws) |-> [b \in 1..Len(W[ws[k]].bad) |->
-                  [id |-> id, w |-> ws[k], props |-> Props2(ws[k], Props1(W[ws[k]].bad[b].props)), cause |-> W[ws[k]].bad[b].cause]]]
+                  [id |-> id, w |-> ws[k], props |-> Props3(Props2(ws[k], Props1(W[ws[k]].bad[b].props))), cause |-> W[ws[k]].bad[b].cause]]]
       glob == [b \in 1..Len(g.gbad) |-> [id |-> id, w |-> "", props |-> g.gbad[b].props, cause |-> g.gbad[b].cause]]
   IN FlattenSeq(perW) \o glob
 
